@@ -1118,8 +1118,10 @@ impl<'a, R: Read + Seek> BlocksToFileReader<'a, R> {
     }
 }
 
-impl<T: Read + Seek> Read for BlocksToFileReader<'_, T> {
-    fn read(&mut self, into: &mut [u8]) -> io::Result<usize> {
+impl<T: Read + Seek> BlocksToFileReader<'_, T> {
+    /// One step of `read`: returns `Ok(None)` when a block belonging to another
+    /// file has been skipped and the read must be tried again
+    fn read_step(&mut self, into: &mut [u8]) -> io::Result<Option<usize>> {
         let (remaining, count) = match self.state {
             BlocksToFileReaderState::Ready => {
                 // Start a new block FileContent
@@ -1127,7 +1129,7 @@ impl<T: Read + Seek> Read for BlocksToFileReader<'_, T> {
                     ArchiveFileBlock::FileContent { length, id, .. } => {
                         if id != self.id {
                             self.move_to_next_block()?;
-                            return self.read(into);
+                            return Ok(None);
                         }
                         let count = self.src.by_ref().take(length).read(into)?;
                         let length_usize = usize::try_from(length).map_err(|_| {
@@ -1141,15 +1143,15 @@ impl<T: Read + Seek> Read for BlocksToFileReader<'_, T> {
                     ArchiveFileBlock::EndOfFile { id, .. } => {
                         if id != self.id {
                             self.move_to_next_block()?;
-                            return self.read(into);
+                            return Ok(None);
                         }
                         self.state = BlocksToFileReaderState::Finish;
-                        return Ok(0);
+                        return Ok(Some(0));
                     }
                     ArchiveFileBlock::FileStart { id, .. } => {
                         if id != self.id {
                             self.move_to_next_block()?;
-                            return self.read(into);
+                            return Ok(None);
                         }
                         return Err(Error::WrongReaderState(
                             "[BlocksToFileReader] Start with a wrong block type".to_string(),
@@ -1169,7 +1171,7 @@ impl<T: Read + Seek> Read for BlocksToFileReader<'_, T> {
                 (remaining - count, count)
             }
             BlocksToFileReaderState::Finish => {
-                return Ok(0);
+                return Ok(Some(0));
             }
         };
         if remaining > 0 {
@@ -1178,7 +1180,19 @@ impl<T: Read + Seek> Read for BlocksToFileReader<'_, T> {
             // remaining is 0 (> never happens thanks to take)
             self.state = BlocksToFileReaderState::Ready;
         }
-        Ok(count)
+        Ok(Some(count))
+    }
+}
+
+impl<T: Read + Seek> Read for BlocksToFileReader<'_, T> {
+    fn read(&mut self, into: &mut [u8]) -> io::Result<usize> {
+        // Loop (instead of recursing) over the blocks of other files: their
+        // number is controlled by the archive content
+        loop {
+            if let Some(count) = self.read_step(into)? {
+                return Ok(count);
+            }
+        }
     }
 }
 
